@@ -520,6 +520,10 @@ fn ill_formed(h: &H, idx: u64, rng: &mut Rng) {
         "stack unroll=1,1".into(),
         "stack roll=2.5,1".into(),
         "stack roll=3,0.5".into(),
+        "stack unroll=3,1.5".into(),
+        "stack unroll=3,-0.5".into(),
+        "stack unroll=2.5,1".into(),
+        "stack roll=3,-1.5".into(),
         "stack unroll=0,0".into(),
         "stack roll=-3,1".into(),
         "stack push=a".into(),
@@ -531,6 +535,14 @@ fn ill_formed(h: &H, idx: u64, rng: &mut Rng) {
         let n = rng.int(-12, 12);
         if n.abs() >= m {
             bad.push(format!("stack {}={m},{n}", if rng.chance(0.5) { "roll" } else { "unroll" }));
+        }
+        // a fraction in either position
+        let (fm, fn_) = (rng.int(2, 8), rng.int(-7, 7));
+        let frac = *rng.pick(&[0.5, 0.25, 0.999]);
+        if rng.chance(0.5) {
+            bad.push(format!("stack {}={},{}", if rng.chance(0.5) { "roll" } else { "unroll" }, fm as f64 + frac, fn_));
+        } else if (fn_.abs() + 1) < fm {
+            bad.push(format!("stack {}={},{}", if rng.chance(0.5) { "roll" } else { "unroll" }, fm, fn_ as f64 + frac * if fn_ < 0 { -1.0 } else { 1.0 }));
         }
         let i = *rng.pick(&[0i64, 5, 6, -1, -4, 17]);
         bad.push(format!("stack {}=1,{i}", rng.pick(&["push", "pop", "flip"])));
